@@ -127,9 +127,11 @@ func (p *Program) selectFunctions(prop string, pc *PropConfig) (ids []string, sw
 			}
 		}
 		for _, lc := range fc.Loops {
-			for _, c := range lc.Invariants {
-				if hasProp(c.Props, prop) {
-					mentions = true
+			for _, cl := range [][]*Clause{lc.Invariants, lc.BodyEnsures, lc.IterEnsures} {
+				for _, c := range cl {
+					if hasProp(c.Props, prop) {
+						mentions = true
+					}
 				}
 			}
 		}
@@ -145,6 +147,16 @@ func (p *Program) selectFunctions(prop string, pc *PropConfig) (ids []string, sw
 					if iid == id {
 						set[fid] = true
 					}
+				}
+			}
+		}
+	}
+	// global invariants are established by the package initialiser
+	for _, gi := range p.Contracts.Globals {
+		if gi.Clause != nil && hasProp(gi.Clause.Props, prop) {
+			for id := range p.Funcs {
+				if strings.HasSuffix(id, "/"+gi.Pkg+".init") || id == gi.Pkg+".init" {
+					set[id] = true
 				}
 			}
 		}
@@ -410,7 +422,7 @@ func cmdCheck(args []string) int {
 	replayDir := filepath.Join(verifDir(), "replays", prop)
 	exit := 0
 	var nObl, nDis, nCover, nCoverOK, nViol, nUndec, nSkipped int
-	var knownReported, undecided, violations []string
+	var knownReported, undecided, violations, notClaimed []string
 	bySolver := map[string]int{}
 	byKind := map[string]int{}
 	var solverTime, maxTime float64
@@ -481,6 +493,8 @@ func cmdCheck(args []string) int {
 				fmt.Printf("UNDECIDED: property=%s %s (%s; listed as never proved by this machinery)\n", prop, o.ID, o.Result.Status)
 				undecided = append(undecided, o.ID+" ("+o.Result.Status+", never proved)")
 				nUndec++
+				nObl-- // stated in a contract but not claimed: not part of the obligations this check speaks for
+				notClaimed = append(notClaimed, o.ID)
 				continue
 			}
 			if o.Result.Status == "skipped" {
@@ -613,6 +627,7 @@ func cmdCheck(args []string) int {
 		"by_solver":                bySolver,
 		"solver_time_s":            map[string]float64{"sum": round2(solverTime), "max": round2(maxTime)},
 		"undecided":                undecided,
+		"stated_but_not_claimed":   notClaimed,
 		"known_failing":            knownReported,
 		"violations":               violations,
 		"cover_queries":            map[string]int{"count": nCover, "sat": nCoverOK},
